@@ -375,6 +375,7 @@ static IteratorComparison iterator_compare(
 
   if (
     old_start != new_start ||
+    ts_subtree_padding(old_tree).bytes != ts_subtree_padding(new_tree).bytes ||
     old_symbol == ts_builtin_sym_error ||
     old_size != new_size ||
     old_state == TS_TREE_STATE_NONE ||
